@@ -18,6 +18,8 @@ USER = [
     ['unit', 'B1', 'x1b', ['term', [['i:10', 1], ['x0', 1], ['i:100', 1]]]],
     ['unit', 'B1', 'x1c', ['scaled', 'D:0.001', 'x1']],
     ['unit', 'B1', 'x512', ['scaled', 'i:512', 'x0']],
+    ['unit', 'B1', 'xneg', ['scaled', 'F:-1/4', 'x0']],      # negative scale
+    ['unit', 'B1', 'xneg2', ['scaled', 'D:-0.25', 'x0']],
     ['unit', 'B1', 'x2e70', ['scaled', 'i:1180591620717411303424', 'x0']],
     ['unit', 'B1', 'x2e61', ['scaled', 'i:2305843009213693952', 'x0']],
     ['type', 'B2', 'y0', None],
